@@ -62,6 +62,10 @@ InitC02Quick ==
           \/ \E e1 \in ElemsFull : InitWith(PCfg(kf, mb), Batch(<<e1>>))
           \/ \E e1 \in ElemsFull, e2 \in ElemsFull : InitWith(PCfg(kf, mb), Batch(<<e1, e2>>))
           \/ \E e1 \in ElemsSmall, e2 \in ElemsSmall, e3 \in ElemsSmall : InitWith(PCfg(kf, mb), Batch(<<e1, e2, e3>>))
+    \* the asynchronous dispatcher serving coroutine functions hidden behind an ordinary (non-async) pass-through decorator:
+    \* the registered callable is a plain function that RETURNS a coroutine
+    \/ \E e \in ElemsFull : InitWith(PCfg(<<"async", "wrapcoro">>, "unset"), Single(e))
+    \/ \E e1 \in ElemsMid, e2 \in ElemsMid : InitWith(PCfg(<<"async", "wrapcoro">>, "unset"), Batch(<<e1, e2>>))
 InitC02Thorough ==
     \/ InitC02Quick
     \/ \E kf \in KindFl, mb \in {"unset", "n2", "n3", "n4"} :
